@@ -909,6 +909,29 @@ impl<S: BitmapSlice + Send + Sync> PassthroughFs<S> {
     }
 }
 
+/// Verification hooks (only built with `--cfg fuse_backend_rs_verif`), read-only.
+#[cfg(fuse_backend_rs_verif)]
+impl<S: BitmapSlice + Send + Sync> PassthroughFs<S> {
+    /// Sizes of the inode, handle and directory-position tables: (live inodes, handles, cookies).
+    pub fn verif_table_sizes(&self) -> (usize, usize, usize) {
+        (
+            self.inode_map.inodes.read().unwrap().verif_len(),
+            self.handle_map.handles.read().unwrap().len(),
+            self.handle_map.cookies.lock().unwrap().len(),
+        )
+    }
+
+    /// Lookup count of an inode number, if it is live.
+    pub fn verif_refcount(&self, inode: Inode) -> Option<u64> {
+        self.inode_map
+            .inodes
+            .read()
+            .unwrap()
+            .get(&inode)
+            .map(|d| d.refcount.load(Ordering::Acquire))
+    }
+}
+
 #[cfg(not(feature = "async-io"))]
 impl<S: BitmapSlice + Send + Sync + 'static> BackendFileSystem for PassthroughFs<S> {
     fn mount(&self) -> io::Result<(Entry, u64)> {
